@@ -235,6 +235,87 @@ static void* ms_raiser_storm(void* a) {
   return NULL;
 }
 
+// ---------------------------------------------------------------------------------------------------------
+// bounded channel, acknowledged ping-pong (sub=ack): one sender, one receiver on two kernel threads, raw speed. The sender sends
+// message k and waits (yielding) until the receiver has acknowledged it, so receiver and sender meet at the channel within
+// nanoseconds of each other, again and again: the receiver decides to sleep just when the next message is being stored.
+// Stuck-state rule (no hooks needed, so it also works in raw mode): the sender has returned from send(k) and is waiting for the
+// acknowledgement, the message is still inside, and the receiver is registered in the ready signal and suspended - on three looks.
+// Nobody will ever raise the signal again: the receiver is stranded with a message in the channel.
+static _Atomic long ack_sent, ack_acked;
+static long ack_total;
+static fb_slot_t* ack_recv_slot;
+static void* ack_sender(void* a) {
+  fb_slot_t* s = (fb_slot_t*)a;
+  long k;
+  msg_t* m = (msg_t*)malloc(sizeof(*m));
+  vp_payload_fill(m, ((uint64_t)1 << 40) | 1u);
+  for (k = 1; k <= ack_total; ++k) {
+    FB_BLOCKING(s, "C11 fiber_bounded_channel_send", fiber_bounded_channel_send(bch, m));
+    atomic_store(&ack_sent, k);
+    vp_add(c_msgs, 1);
+    // the next message is prepared while waiting, so that the next send follows the acknowledgement at once
+    m = (msg_t*)malloc(sizeof(*m));
+    vp_payload_fill(m, ((uint64_t)1 << 40) | (uint64_t)(k + 1));
+    atomic_store(&s->where, "C11 sender waiting for the receiver's acknowledgement");
+    unsigned spins = 0;
+    while (atomic_load(&ack_acked) < k) {
+      // mostly busy-waiting (the two fibers stay on their kernel threads and meet at raw speed), yielding now and then so that a
+      // receiver that was queued behind this fiber gets to run
+      __asm__ __volatile__("pause" ::: "memory");
+      if ((++spins & 0xfff) == 0) {
+        if (vp_violation_count()) return NULL;
+        fiber_yield();
+      }
+    }
+    atomic_store(&s->where, (const char*)0);
+  }
+  free(m);
+  return NULL;
+}
+static void* ack_receiver(void* a) {
+  fb_slot_t* s = (fb_slot_t*)a;
+  long k;
+  for (k = 1; k <= ack_total; ++k) {
+    fb_spin(&s->rng, 120);  // arrive at the channel at a random moment relative to the next send
+    msg_t* m = NULL;
+    const uint64_t sw = vp_self_switches();
+    FB_BLOCKING(s, "C11 fiber_bounded_channel_receive", m = (msg_t*)fiber_bounded_channel_receive(bch));
+    if (vp_self_switches() != sw) vp_add(c_recv_slept, 1);
+    if (!m) {
+      vp_violation("C11", "chan:null-message", "ack ping-pong: receive #%ld returned NULL", k);
+      return NULL;
+    }
+    const uint64_t id = vp_payload_check(m, 0);
+    if ((id & 0xffffffffffULL) != (uint64_t)k) vp_violation("C11", "chan:sender-order", "ack ping-pong: receive #%ld delivered message %llu", k, (unsigned long long)(id & 0xffffffffffULL));
+    free(m);
+    atomic_store(&ack_acked, k);
+  }
+  return NULL;
+}
+static void ack_periodic(void) {
+  static long last_k;
+  static int streak;
+  fb_slot_t* r = ack_recv_slot;
+  if (!r || !r->fiber || !bch) return;
+  const long sent = atomic_load(&ack_sent), acked = atomic_load(&ack_acked);
+  fiber_t* const w = atomic_load(&sig.waiter);
+  const int stuck = sent == acked + 1 && bch->high != bch->low && w == r->fiber && r->fiber->state == FIBER_STATE_WAITING;
+  if (stuck && last_k == sent) {
+    if (++streak >= 3) {
+      vp_violation("C11", "chan:receiver-asleep-with-message-inside",
+                   "ack ping-pong: send #%ld has returned (the sender only waits for the acknowledgement now), the message is in the channel (high=%llu low=%llu), and the receiver is registered "
+                   "in the ready signal and suspended: nobody will raise the signal again",
+                   sent, (unsigned long long)bch->high, (unsigned long long)bch->low);
+      streak = 0;
+      vp_finish();
+    }
+  } else {
+    streak = stuck ? 1 : 0;
+    last_k = sent;
+  }
+}
+
 static void chan_diag(void) {
   if (kind == 3 && mch) {
     vp_note("multi channel at stranding: high=%llu low=%llu size=%u (inside %llu), lock counter=%d", (unsigned long long)mch->high, (unsigned long long)mch->low, mch->size,
@@ -257,7 +338,25 @@ static void* root(void* x) {
   for (trial = 0; trial < trials; ++trial) {
     int n = 0, i;
     fb_slots_reset();
-    if (!strcmp(sub, "signal")) {
+    if (!strcmp(sub, "ack")) {
+      kind = 0;
+      cap_log = 1 + (int)(vp_rand(&rng) % 3);
+      ack_total = vp_param("ack_msgs", 300000);
+      atomic_store(&ack_sent, 0);
+      atomic_store(&ack_acked, 0);
+      fiber_signal_init(&sig);
+      bch = fiber_bounded_channel_create((uint32_t)cap_log, &sig);
+      sl[n++] = ack_recv_slot = fb_spawn(ack_receiver, NULL);
+      sl[n++] = fb_spawn(ack_sender, NULL);
+      vp_set_periodic(ack_periodic);
+      fb_join_all(sl, n);
+      vp_set_periodic(NULL);
+      ack_recv_slot = NULL;
+      if (atomic_load(&ack_acked) != ack_total && !vp_violation_count())
+        vp_violation("C11", "chan:lost", "ack ping-pong: %ld of %ld messages acknowledged", atomic_load(&ack_acked), ack_total);
+      vp_sig(vp_mix((uint64_t)cap_log, (uint64_t)vp_get(c_recv_slept)));
+      vp_count("chan_ack_pingpong_trials", 1);
+    } else if (!strcmp(sub, "signal")) {
       kind = 4;
       rounds = 200 + (long)(vp_rand(&rng) % 800);
       fiber_signal_init(&ping);
